@@ -24,12 +24,6 @@ theorem fm_callback_unchecked :
 theorem fm_nonfunction_accepted :
     (fmApply G.init { id := 0, sig := ⟨[rc, i], [i], false, i⟩ } (.val ⟨.ptr, 8, 34, false, 0⟩) 1).2 = .ok () := rfl
 
-/-- F27-c13: a first `Returns()` with no value on `func(int) int` is accepted, the target is patched and has nothing to answer -/
-theorem first_returns_empty_accepted :
-    let r := seqStep { id := 0, sig := ⟨[i], [i], false, i⟩ } false 1 ⟨G.init, none, .none⟩ (.returns [])
-    r.2 = .ok () ∧ r.1.g.text 0 = some 1 ∧ behOf .orig r.1 = .nomatch := by
-  exact ⟨rfl, rfl, rfl⟩
-
 /-- C04-K1 seen from C13: a first `When()` without conditions on `func(int) int` is accepted -/
 theorem first_when_without_args_accepted :
     (seqStep { id := 0, sig := ⟨[i], [i], false, i⟩ } false 1 ⟨G.init, none, .none⟩ (.when_ none false)).2 = .ok () := rfl
